@@ -6,6 +6,12 @@ from_file), the written file is inspected with astropy.io.fits directly, and the
 Lean model (Core/Specio.lean at K = Q), which predicts the stored unit strings, column names, format,
 rows and header cards and the outcome of reading them back.  The property oracle looks at the
 implementation alone.
+
+Cases run as short HISTORIES: 1-4 consecutive requests (writes/reads of different objects, units, headers,
+precisions) executed in one freshly forked process.  Every step is measured: the model's prediction is a pure
+function of that step's request, and the oracle demands that the step's file holds exactly the caller's cards
+plus the documented standard cards of that object - so anything an earlier save leaves behind (module- or
+class-level state) shows up as a disagreement whose replay is the history up to that step.
 """
 import functools
 import json
@@ -32,7 +38,7 @@ WAVE_UNITS = {
     'AA': -4, 'nm': -7, 'micron': -17, 'um': -17, 'mm': -27, 'cm': -30, 'm': -37,
     'Hz': 30, 'kHz': 20, 'MHz': 10, 'GHz': 0, 'THz': -10,
     'micron-1': -16, 'cm-1': -3, 'mm-1': -6, 'm-1': 4,
-    'Mm': -57, 'pm': 3, 'km': -47,
+    'Mm': -57, 'pm': 3, 'km': -47, 'mHz': 40,
 }
 WAVE_COMMON = ['AA', 'nm', 'micron', 'um', 'mm', 'cm', 'm', 'Hz', 'kHz', 'MHz', 'GHz', 'THz',
                'micron-1', 'cm-1', 'mm-1', 'm-1']
@@ -281,11 +287,14 @@ def build_object(case):
     from synphot.models import Empirical1D
     pts = [float(unq(x)) for x in case['pts']]
     vals = [float(unq(x)) for x in case['vals']]
+    kw = {}
+    if case.get('meta') is not None:
+        kw['meta'] = dict(case['meta'])
     if case['cls'] == 'source':
-        return SourceSpectrum, SourceSpectrum(Empirical1D, points=pts, lookup_table=vals)
+        return SourceSpectrum, SourceSpectrum(Empirical1D, points=pts, lookup_table=vals, **kw)
     if case['cls'] == 'bandpass':
-        return SpectralElement, SpectralElement(Empirical1D, points=pts, lookup_table=vals)
-    return ReddeningLaw, ReddeningLaw(Empirical1D, points=pts, lookup_table=vals)
+        return SpectralElement, SpectralElement(Empirical1D, points=pts, lookup_table=vals, **kw)
+    return ReddeningLaw, ReddeningLaw(Empirical1D, points=pts, lookup_table=vals, **kw)
 
 
 def impl_obj_rt(case):
@@ -474,8 +483,45 @@ def impl_unit_name(case):
         return outcome_err(e)
 
 
+def isolated(fn, arg):
+    """run fn(arg) in a freshly forked child: whatever module- or class-level state the steps leave behind dies
+    with the child, so a history is reproducible from its own steps"""
+    r, w = os.pipe()
+    pid = os.fork()
+    if pid == 0:
+        code = 0
+        try:
+            os.close(r)
+            try:
+                data = json.dumps(fn(arg)).encode()
+            except BaseException as e:  # noqa
+                data = json.dumps({'crash': '%s: %s' % (type(e).__name__, e)}).encode()
+            with os.fdopen(w, 'wb') as f:
+                f.write(data)
+        except BaseException:  # noqa
+            code = 1
+        finally:
+            os._exit(code)
+    os.close(w)
+    with os.fdopen(r, 'rb') as f:
+        data = f.read()
+    os.waitpid(pid, 0)
+    if not data:
+        raise RuntimeError('history child died without a result')
+    out = json.loads(data)
+    if isinstance(out, dict) and 'crash' in out:
+        raise RuntimeError('history child crashed: ' + out['crash'])
+    return out
+
+
+def impl_history(case):
+    return isolated(lambda c: {'steps': [impl_call(st) for st in c['steps']]}, case)
+
+
 def impl_call(case):
     op = case['op']
+    if op == 'history':
+        return impl_history(case)
     if op == 'fits_rt':
         return impl_fits_rt(case)
     if op == 'obj_rt':
@@ -545,6 +591,16 @@ def model_case(case):
     return None          # obj_rt: the model line needs the sampled arrays (second pass)
 
 
+def standard_ext_cards(case):
+    """the documented standard extension cards of to_fits() for this object: TDISP1/TDISP2, and EXPR iff the
+    object's own metadata has an 'expr' entry"""
+    cards = [('tdisp1', 'G15.7', ''), ('tdisp2', 'G15.7', '')]
+    meta = case.get('meta') or {}
+    if 'expr' in meta:
+        cards.append(('expr', meta['expr'], 'synphot expression'))
+    return cards
+
+
 def obj_model_case(case, out):
     """second pass for obj_rt: which rows does the model store for the arrays the object sampled?"""
     s = out.get('sampled') or {}
@@ -556,7 +612,7 @@ def obj_model_case(case, out):
     if case['cls'] == 'redlaw':
         c2['trim'] = False if case['trim'] is None else case['trim']
         c2['pad'] = False if case['pad'] is None else case['pad']
-    ext = list(case['ext'] or []) + [('tdisp1', 'G15.7', ''), ('tdisp2', 'G15.7', '')]
+    ext = list(case['ext'] or []) + standard_ext_cards(case)
     m = write_line(c2, qs(s['wave']), qs(s['flux']), 'f8', 'f8', {'unit': s['wunit']}, {'unit': s['funit']},
                    [s['wunit'], s['wunit'].upper(), s['funit'], s['funit'].upper()], case['pri'], ext, None, fcol)
     m['op'] = 'c14_roundtrip'
@@ -592,10 +648,23 @@ def row_tolerances(n, pad, single_store, any_f4_arith):
     return tol
 
 
-def sub_header(model_pairs, impl_hdr, what):
+STRUCTURAL = re.compile(r'^(SIMPLE|BITPIX|NAXIS\d*|EXTEND|XTENSION|PCOUNT|GCOUNT|TFIELDS|TTYPE\d+|TFORM\d+|TUNIT\d+)$')
+
+
+def user_cards(hdr):
+    """the cards of a stored header that are not structural FITS keywords"""
+    return {k: v for k, v in hdr.items() if not STRUCTURAL.match(k)}
+
+
+def sub_header(model_pairs, impl_hdr, what, exact=False):
     for k, v in model_pairs:
         if impl_hdr.get(k) != v:
             return '%s card %s: impl %r vs model %r' % (what, k, impl_hdr.get(k), v)
+    if exact:
+        extra = sorted(set(user_cards(impl_hdr)) - {k for k, _ in model_pairs})
+        if extra:
+            return '%s header has cards the model does not predict: %s' % (what, ', '.join(
+                '%s=%r' % (k, impl_hdr[k]) for k in extra))
     return None
 
 
@@ -620,7 +689,8 @@ def compare_written(case, w, m, wdt, fdt, pad):
                    row_tolerances(n, pad, single and wdt == 'f8', wdt == 'f4'), 'stored wavelength')
     r = r or close_vals(st['cols'][1], hd['cols'][1]['vals'],
                         row_tolerances(n, False, single and fdt != 'f4', False), 'stored flux')
-    r = r or sub_header(mf['pri'], st['pri'], 'primary') or sub_header(hd['header'], st['ext'], 'extension')
+    r = r or sub_header(mf['pri'], st['pri'], 'primary', exact=True) or \
+        sub_header(hd['header'], st['ext'], 'extension', exact=True)
     return r
 
 
@@ -730,6 +800,32 @@ def thin_reference(w, f, eps):
     return keep
 
 
+def check_headers(rep, case, out, st, prefix, standard):
+    """the headers of the file hold exactly the caller's cards (last one wins for a repeated keyword) plus the
+    documented standard cards of THIS request: FILENAME and ORIGIN in the primary header unless the caller
+    overrides them; for to_fits() TDISP1/TDISP2 and, iff the object's metadata has 'expr', EXPR in the
+    extension header (the standard cards are applied after the caller's).  No card from anywhere else."""
+    want_pri = {'FILENAME': 'c%07d.fits' % case['id'], 'ORIGIN': 'synphot'}
+    for k, v, _ in (case['pri'] or []):
+        want_pri[k.upper()] = enc(v)
+    want_ext = {}
+    for k, v, _ in list(case['ext'] or []) + list(standard):
+        want_ext[k.upper()] = enc(v)
+    for name, want, got in (('primary', want_pri, user_cards(st['pri'])), ('extension', want_ext, user_cards(st['ext']))):
+        for k, v in want.items():
+            if got.get(k) != v:
+                rep.oracle_fail('%s:%s_header_card_lost' % (prefix, name),
+                                'card %s=%r is %r in the %s header of the file' % (k, v, got.get(k), name), case, out)
+                return False
+        extra = sorted(set(got) - set(want))
+        if extra:
+            rep.oracle_fail('%s:%s_header_spurious_card' % (prefix, name),
+                            'the %s header of the file has cards nobody asked for: %s' % (
+                                name, ', '.join('%s=%r' % (k, got[k]) for k in extra)), case, out)
+            return False
+    return True
+
+
 def oracle_fits_rt(rep, case, out):
     """read(write(t)) vs t, on the implementation alone"""
     wr = out['write']
@@ -813,15 +909,8 @@ def oracle_fits_rt(rep, case, out):
         rep.oracle_fail('fits_rt:%s:rows_differ' % flags, r, case, out)
         return
     # header cards, looked up in the file itself
-    for hdr_name, pairs, stored in (('primary', case['pri'], st['pri']), ('extension', case['ext'], st['ext'])):
-        last = {}
-        for k, v, _ in (pairs or []):
-            last[k.upper()] = enc(v)
-        for k, v in last.items():
-            if stored.get(k) != v:
-                rep.oracle_fail('fits_rt:%s_header_card_lost' % hdr_name,
-                                'card %s=%r is %r in the file' % (k, v, stored.get(k)), case, out)
-                return
+    if not check_headers(rep, case, out, st, 'fits_rt', []):
+        return
     # reading back
     rd = out['read']
     uin = [unit_id(us['name']) if us['kind'] != 'kw_str' else None for us in (case['wunit'], case['funit'])]
@@ -888,6 +977,8 @@ def oracle_obj_rt(rep, case, out):
     want_col = {'source': 'FLUX', 'bandpass': 'THROUGHPUT', 'redlaw': 'Av/E(B-V)'}[case['cls']]
     if st['ttype'] != ['WAVELENGTH', want_col]:
         rep.oracle_fail('to_fits:%s:column_names' % case['cls'], 'columns %r' % st['ttype'], case, out)
+        return
+    if not check_headers(rep, case, out, st, 'to_fits', standard_ext_cards(case)):
         return
     if len(sw) < 2:
         return          # a one-row table is not a spectrum (Empirical1D needs two points): not this property's subject
@@ -1276,15 +1367,27 @@ def make_obj_rt(rng, nid, nmax):
             fac = {None: 1, 'AA': 1, 'nm': 10, 'micron': 10000}[wl_unit]
             wl = [F(x) / fac for x in inside]
             wl = qs([float(x) for x in wl])
+    meta = None
+    r = rng.random()
+    if r < 0.4:
+        meta = {'expr': rng.choice(['bb(5000)', 'em(1000, 20, 1e-12, flam)', 'ebv(earlier law)', 'band(v)',
+                                    'rn(bb(3000), band(b), 18, abmag)', 'x'])}
+        if rng.random() < 0.3:
+            meta['note'] = 'some other metadata'
+    elif r < 0.55:
+        meta = {'note': 'no expression here', 'warnings': {}}
+    ext = gen_header(rng)
+    if (meta is None or 'expr' not in meta or rng.random() < 0.2) and rng.random() < 0.3:
+        ext = list(ext or []) + [(rng.choice(['expr', 'EXPR', 'Expr']), rng.choice(['caller card', 'my own expression']), '')]
     return {'op': 'obj_rt', 'id': nid, 'cls': cls, 'pts': qs(pts), 'vals': qs(vals), 'flux_unit': flux_unit,
             'wl': wl, 'wl_unit': wl_unit, 'trim': rng.choice([None, None, True, False]),
             'pad': rng.choice([None, None, True, False]), 'precision': rng.choice([None, None, 'single', 'double']),
-            'pri': gen_header(rng), 'ext': gen_header(rng)}
+            'pri': gen_header(rng), 'ext': ext, 'meta': meta}
 
 
 TUNITS = ['angstroms', 'ANGSTROMS', 'Angstrom', 'ANGSTROM', 'nm', 'NM', 'micron', 'MICRON', 'Hz', 'HZ', 'flam', 'FLAM',
           'photlam', 'PHOTLAM', 'FNU', 'photnu', 'count', 'COUNT', 'ct', 'transmission', 'EXTINCTION', 'emissivity', 'none',
-          None, None, 'mag(st)', 'MAG(AB)', 'ABMAG', 'stmag', 'obmag', 'MAG(VEGA)', 'JY', 'Jy', 'mJy', 'MJY', 'sec', 'bogusunit',
+          None, None, 'mag(st)', 'MAG(AB)', 'ABMAG', 'stmag', 'obmag', 'MAG(VEGA)', 'JY', 'Jy', 'mJy', 'MJy', 'MJY', 'sec', 'bogusunit',
           'INVERSEMICRONS', '1 / MICRON', 'CM']
 COLNAMES = ['WAVELENGTH', 'wavelength', 'Wavelength', 'Wave', 'FLUX', 'Flux', 'flux', 'THROUGHPUT', 'Throughput',
             'Av/E(B-V)', 'ERROR', 'dq', 'lambda']
@@ -1439,8 +1542,49 @@ def generate(rep, rng, thorough, scale=1.0):
         cases.append(make_fits_read(rng, next_id(), 20))
     for _ in range(int((2000 if thorough else 150) * scale)):
         cases.append(make_ascii(rng, next_id(), 40))
-    cases += list(gen_unit_names(rng))
-    return cases
+    names = list(gen_unit_names(rng))
+    # dedicated histories: something that could be left behind by an earlier save, then a request that would show it
+    dedicated = []
+    for _ in range(int((400 if thorough else 40) * scale)):
+        first = make_obj_rt(rng, next_id(), 12)
+        first['meta'] = {'expr': rng.choice(['bb(5000)', 'ebv(earlier law)', 'band(v)'])}
+        steps = [first]
+        for _ in range(rng.randint(1, 3)):
+            nxt = make_obj_rt(rng, next_id(), 12)
+            if rng.random() < 0.7:
+                nxt['meta'] = rng.choice([None, {'note': 'no expression here'}])
+                nxt['ext'] = rng.choice([None, [], [('EXPR', 'caller card', ''), ('SPEC_SRC', 'RANDOM', '')],
+                                         [('key_1', 7, '')]])
+            steps.append(nxt)
+        dedicated.append(steps)
+    twins = [('f', 'mJy', 'MJy'), ('f', 'MJy', 'mJy'), ('w', 'Mm', 'mm'), ('w', 'mm', 'Mm'), ('w', 'MHz', 'mHz'),
+             ('w', 'mHz', 'MHz'), ('f', 'Jy', 'mJy'), ('f', 'kJy', 'nJy')]
+    for _ in range(int((400 if thorough else 40) * scale)):
+        which, a, b = rng.choice(twins)
+        steps = []
+        for name in (a, b) + ((a,) if rng.random() < 0.3 else ()):
+            if rng.random() < 0.75:
+                steps.append(make_fits_rt(rng, next_id(), 8, name if which == 'w' else None,
+                                          name if which == 'f' else None, (False, False)))
+            else:       # the same unit string arriving through a TUNIT card or a unit keyword
+                c = make_fits_read(rng, next_id(), 6)
+                if c['kind'] == 'ok':
+                    for e in c['file']['exts']:
+                        e['cols'][0]['tunit'] = unit_id(name)
+                steps.append(c)
+        dedicated.append(steps)
+    # everything else: shuffled and cut into histories of 1..4 consecutive requests (every step is measured)
+    rng.shuffle(cases)
+    hists = []
+    i = 0
+    while i < len(cases):
+        k = rng.choice([1, 2, 2, 3, 3, 4])
+        hists.append(cases[i:i + k])
+        i += k
+    for i in range(0, len(names), 6):
+        hists.append(names[i:i + 6])
+    hists += dedicated
+    return [{'op': 'history', 'id': next_id(), 'steps': st} for st in hists]
 
 
 # ---------------------------------------------------------------------------------- driver of the check
@@ -1476,26 +1620,56 @@ def nontrivial(case, out):
     return True
 
 
-def process(rep, cases):
-    """implementation (fork pool), model (Lean driver), comparison, property oracle"""
-    impl = core.pmap(impl_call, cases)
-    mcases, midx = [], []
-    for i, (c, o) in enumerate(zip(cases, impl)):
-        mc = obj_model_case(c, o) if c['op'] == 'obj_rt' else model_case(c)
-        if mc is not None:
-            mcases.append(mc)
-            midx.append(i)
-    mout = core.run_model(mcases)
-    model = [None] * len(cases)
-    for i, m in zip(midx, mout):
-        model[i] = m
-    for c, o, m in zip(cases, impl, model):
-        rep.count(c, nontrivial=nontrivial(c, o), tags=tags(c, o))
+class _StepReport:
+    """what an oracle sees while it judges step k of a history: a failure is recorded with the history up to
+    and including that step as its case, so that the replay reproduces the state the step ran in"""
+
+    def __init__(self, rep, hist, k):
+        self.rep, self.hist, self.k = rep, hist, k
+
+    def prefix(self):
+        return {'op': 'history', 'id': self.hist['id'], 'steps': self.hist['steps'][:self.k + 1]}
+
+    def oracle_fail(self, sig, msg, case, impl=None):
+        n = self.k + 1
+        self.rep.oracle_fail(sig, ('step %d of a %d-step history: ' % (n, n) if n > 1 else '') + msg, self.prefix(), impl)
+
+
+def as_history(case):
+    if case.get('op') == 'history':
+        return case
+    return {'op': 'history', 'id': case.get('id', 0), 'steps': [case]}
+
+
+def process(rep, cases, with_model=True):
+    """implementation (fork pool; every history in a fresh child), model (Lean driver, one pure line per step),
+    comparison, property oracle on every step"""
+    hists = [as_history(c) for c in cases]
+    impl = core.pmap(impl_call, hists)
+    flat = []           # (history index, step index, step case, step outcome)
+    for hi, (h, o) in enumerate(zip(hists, impl)):
+        for k, (c, so) in enumerate(zip(h['steps'], o['steps'])):
+            flat.append((hi, k, c, so))
+    model = [None] * len(flat)
+    if with_model:
+        mcases, midx = [], []
+        for i, (hi, k, c, o) in enumerate(flat):
+            mc = obj_model_case(c, o) if c['op'] == 'obj_rt' else model_case(c)
+            if mc is not None:
+                mcases.append(mc)
+                midx.append(i)
+        for i, m in zip(midx, core.run_model(mcases)):
+            model[i] = m
+    for (hi, k, c, o), m in zip(flat, model):
+        h = hists[hi]
+        sr = _StepReport(rep, h, k)
+        rep.count(c, nontrivial=nontrivial(c, o), tags=tags(c, o) + ['history:step%d' % (k + 1)])
         if m is not None:
             r = compare(c, o, m)
             if r:
-                rep.mismatch(c['op'], r, c, o, m)
-        oracle(rep, c, o)
+                n = k + 1
+                rep.mismatch(c['op'], ('step %d of a %d-step history: ' % (n, n) if n > 1 else '') + r, sr.prefix(), o, m)
+        oracle(sr, c, o)
     return impl, model
 
 
@@ -1525,6 +1699,10 @@ def run(rep):
                 'files (1-3 extensions, 2-4 columns, legacy TUNIT strings) read with every kind of ext / column request; '
                 'unopenable paths (missing, directory, empty, garbage; file name or file object); ASCII tables with comments, '
                 'blank lines and extra columns; every name of the validate_unit table in six casings. '
+                'All requests run as histories of 1-4 consecutive requests in one freshly forked process (every step measured, '
+                'model = pure function of the step); dedicated histories: objects with an expr metadata entry followed by '
+                'objects without (with and without caller EXPR / ext_header cards), and units differing only in letter case '
+                '(mJy/MJy, Mm/mm, MHz/mHz) in consecutive files; headers must hold exactly the caller\'s plus the standard cards. '
                 'Non-trivial: the write succeeded (for reads and ASCII: every case).')
     with_scratch(lambda: process(rep, cases))
     # keep the evidence small: collapse the per-unit tags into counts
@@ -1534,21 +1712,16 @@ def run(rep):
         rep.extra[pre.rstrip(':') + '_classes_exercised'] = len(ks)
         for k in ks:
             del d[k]
-    rep.extra['files_written'] = sum(1 for c in cases if c['op'] != 'unit_name')
+    rep.extra['histories'] = len(cases)
+    rep.extra['files_written'] = sum(1 for c in cases for st in as_history(c)['steps'] if st['op'] != 'unit_name')
 
 
 def search(rep, mismatches):
     """directed search after a model/implementation disagreement: a larger budget of the oracles on the ops involved"""
     sub = core.Report(rep.pid, 'thorough', rep.seed + 1)
     rng = sub.rng('c14-search')
-    ops = {m[0] for m in mismatches}
-    cases = [c for c in generate(sub, rng, False, scale=4.0) if c['op'] in ops or c['op'] == 'fits_rt']
-
-    def go():
-        impl = core.pmap(impl_call, cases)
-        for c, o in zip(cases, impl):
-            oracle(sub, c, o)
-    with_scratch(go)
+    cases = generate(sub, rng, False, scale=3.0)
+    with_scratch(lambda: process(sub, cases, with_model=False))
     rep.notes.append('directed search after mismatch: %d cases, %d oracle failures' % (len(cases), len(sub.oracle_failures)))
     return sub.oracle_failures
 
@@ -1565,4 +1738,7 @@ def table_search(rep):
 def replay(rep, payload):
     case = payload['case']
     cases = [case] if isinstance(case, dict) else case
+    for c in cases:
+        for i, st in enumerate(as_history(c)['steps']):
+            st.setdefault('id', 9100000 + i)
     with_scratch(lambda: process(rep, cases))
